@@ -279,13 +279,45 @@ theorem MSOK.mono {B C lo hi lo' hi' mss tables} (h : MSOK B C lo hi mss tables)
 
 theorem TopOK.mono {B C lo hi lo' hi' t} (h : TopOK B C lo hi t) (h1 : lo' ≤ lo) (h2 : hi ≤ hi') :
     TopOK B C lo' hi' t := by
-  cases t with
-  | script scr => exact WF.mono (l := scr.body) h h1 h2
-  | mapscripts m => exact MSOK.mono (mss := m.mapScripts) (tables := m.tables) h h1 h2
-  | raw .. => trivial
-  | text .. => trivial
-  | movement .. => trivial
-  | mart .. => trivial
+  cases t <;> first
+    | exact WF.mono (B := B) (C := C) h h1 h2
+    | exact MSOK.mono (B := B) (C := C) h h1 h2
+    | trivial
+
+theorem wp_and {α} {m : PM α} {s : PState} {P Q : α → PState → Prop} (hp : wp m s P) (hq : wp m s Q) :
+    wp m s (fun a s' => P a s' ∧ Q a s') := fun a s' hr => ⟨hp a s' hr, hq a s' hr⟩
+
+/-- Statements that are not scripts / mapscripts satisfy `TopOK` trivially. -/
+def Plain (t : Top) : Prop := ∀ B C lo hi, TopOK B C lo hi t
+
+theorem raw_plain (s : PState) : wp parseRawStatement s (fun r _ => Plain r) := by
+  unfold parseRawStatement
+  swp
+  vc
+  all_goals (intros; intro B C lo hi; trivial)
+
+theorem text_plain (env : Env) (n : Nat) (s : PState) :
+    wp (parseTextStatement env n) s (fun r _ => Plain r) := by
+  unfold parseTextStatement
+  swp [(frame_parseScopeModifier _).wp_iff, (frame_parsePoryswitchTextStatement _ _).wp_iff,
+    (frame_parseTextValue _ _).wp_iff, wp_modify]
+  vc
+  all_goals (intros; intro B C lo hi; trivial)
+
+theorem movement_plain (env : Env) (n : Nat) (s : PState) :
+    wp (parseMovementStatement env n) s (fun r _ => Plain r) := by
+  unfold parseMovementStatement
+  swp [(frame_parseScopeModifier _).wp_iff, (frame_parseListValue _ _ _ _ _).wp_iff]
+  vc
+  all_goals (intros; intro B C lo hi; trivial)
+
+theorem mart_plain (env : Env) (n : Nat) (s : PState) :
+    wp (parseMartStatement env n) s (fun r _ => Plain r) := by
+  unfold parseMartStatement
+  swp [(frame_parseScopeModifier _).wp_iff, (frame_parseListValue _ _ _ _ _).wp_iff,
+    (frame_mapM_tryReplace _).wp_iff]
+  vc
+  all_goals (intros; intro B C lo hi; trivial)
 
 theorem topLevel_spec (env : Env) (fuel : Nat) (s : PState) :
     wp (parseTopLevelStatement env fuel) s
@@ -294,29 +326,50 @@ theorem topLevel_spec (env : Env) (fuel : Nat) (s : PState) :
   swp
   split
   · -- script
-    swp [wp_spec (script_spec _ _ _), (vframe_addImplicitData _).wp_iff]
-    intro a s1 _ h s2 _ h2
-    obtain ⟨⟨hb, hc, hn⟩, hw⟩ := h
-    obtain ⟨hb2, hc2, hn2⟩ := h2
-    refine ⟨⟨hb2.trans hb, hc2.trans hc, by omega⟩, ?_⟩
-    intro t ht; cases ht
-    rw [hn2]; exact hw
-  · swp [(frame_parseRawStatement).wp_iff]
-    intro a l k _ t ht; cases ht; trivial
-  · swp [(vframe_parseTextStatement _ _).wp_iff]
+    swp [wp_spec (script_spec _ _ _)]
     intro a s1 _ h
-    exact ⟨⟨h.1, h.2.1, Nat.le_of_eq h.2.2.symm⟩, fun t ht => by cases ht; trivial⟩
-  · swp [(frame_parseMovementStatement _ _).wp_iff]
-    intro a l k _ t ht; cases ht; trivial
-  · swp [(frame_parseMartStatement _ _).wp_iff]
-    intro a l k _ t ht; cases ht; trivial
-  · -- mapscripts
-    swp [wp_spec (mapscripts_spec _ _ _), (vframe_addImplicitData _).wp_iff]
-    intro a s1 _ h s2 _ h2
     obtain ⟨⟨hb, hc, hn⟩, hw⟩ := h
+    refine wp_mono (vframe_addImplicitData _ s1) ?_
+    intro u s2 h2
     obtain ⟨hb2, hc2, hn2⟩ := h2
+    try swp
     refine ⟨⟨hb2.trans hb, hc2.trans hc, by omega⟩, ?_⟩
     intro t ht; cases ht
+    show WF _ _ _ _ _
+    rw [hn2]; exact hw
+  · swp [wp_spec (wp_and (frame_parseRawStatement s) (raw_plain s))]
+    intro a s' _ h
+    obtain ⟨⟨l, k, rfl⟩, hp⟩ := h
+    first
+      | exact fun t ht => by cases ht; exact hp _ _ _ _
+      | exact ⟨⟨rfl, rfl, Nat.le_refl _⟩, fun t ht => by cases ht; exact hp _ _ _ _⟩
+  · swp [wp_spec (wp_and (vframe_parseTextStatement env fuel s) (text_plain env fuel s))]
+    intro a s1 _ h
+    obtain ⟨⟨hb, hc, hn⟩, hp⟩ := h
+    exact ⟨⟨hb, hc, Nat.le_of_eq hn.symm⟩, fun t ht => by cases ht; exact hp _ _ _ _⟩
+  · swp [wp_spec (wp_and (frame_parseMovementStatement env fuel s) (movement_plain env fuel s))]
+    intro a s' _ h
+    obtain ⟨⟨l, k, rfl⟩, hp⟩ := h
+    first
+      | exact fun t ht => by cases ht; exact hp _ _ _ _
+      | exact ⟨⟨rfl, rfl, Nat.le_refl _⟩, fun t ht => by cases ht; exact hp _ _ _ _⟩
+  · swp [wp_spec (wp_and (frame_parseMartStatement env fuel s) (mart_plain env fuel s))]
+    intro a s' _ h
+    obtain ⟨⟨l, k, rfl⟩, hp⟩ := h
+    first
+      | exact fun t ht => by cases ht; exact hp _ _ _ _
+      | exact ⟨⟨rfl, rfl, Nat.le_refl _⟩, fun t ht => by cases ht; exact hp _ _ _ _⟩
+  · -- mapscripts
+    swp [wp_spec (mapscripts_spec _ _ _)]
+    intro a s1 _ h
+    obtain ⟨⟨hb, hc, hn⟩, hw⟩ := h
+    refine wp_mono (vframe_addImplicitData _ s1) ?_
+    intro u s2 h2
+    obtain ⟨hb2, hc2, hn2⟩ := h2
+    try swp
+    refine ⟨⟨hb2.trans hb, hc2.trans hc, by omega⟩, ?_⟩
+    intro t ht; cases ht
+    show MSOK _ _ _ _ _ _
     rw [hn2]; exact hw
   · swp [(vframe_parseConstant _).wp_iff]
     intro a s1 _ h
